@@ -29,6 +29,9 @@ type fillDelegate struct {
 	recv     map[string]int
 	recvN    int
 	meta     []byte
+	// busy application: the first NotifyMsg call parks on gate (later messages queue up behind it)
+	gate    chan struct{}
+	gateHit bool
 }
 
 func (d *fillDelegate) NodeMeta(int) []byte { return d.meta }
@@ -36,7 +39,13 @@ func (d *fillDelegate) NotifyMsg(b []byte) {
 	d.mu.Lock()
 	d.recv[string(b)]++
 	d.recvN++
+	g := d.gate
+	first := !d.gateHit
+	d.gateHit = true
 	d.mu.Unlock()
+	if g != nil && first {
+		<-g
+	}
 }
 func (d *fillDelegate) LocalState(bool) []byte        { return nil }
 func (d *fillDelegate) MergeRemoteState([]byte, bool) {}
@@ -97,6 +106,8 @@ type c11Scn struct {
 	// the keyring is empty when the node is created; the key is installed and made primary at run
 	// time, before any traffic (encryption is decided per packet from the keyring's current content)
 	LateKey bool `json:"key_installed_at_runtime,omitempty"`
+	// the receiving application is stuck in its first NotifyMsg until everything has been handed out
+	BusyRx bool `json:"receiver_delegate_busy,omitempty"`
 }
 
 func runC11(run *Run, seed int64, sc c11Scn, rng *rand.Rand) (out []*c01Result) {
@@ -243,6 +254,12 @@ func runC11(run *Run, seed int64, sc c11Scn, rng *rand.Rand) (out []*c01Result) 
 		dA.mode, dA.budget = sc.Mode, sc.Count
 		dA.mu.Unlock()
 	}
+	if sc.BusyRx {
+		dB.mu.Lock()
+		dB.gate = make(chan struct{})
+		dB.mu.Unlock()
+		run.Cell("pack-busy-receiver", fmt.Sprintf("comp=%v", sc.Compress))
+	}
 	// let gossip, probes (ping/ack piggyback) and indirect traffic run until everything was handed out
 	for i := 0; i < 400; i++ {
 		Settle(250 * time.Millisecond)
@@ -252,6 +269,14 @@ func runC11(run *Run, seed int64, sc c11Scn, rng *rand.Rand) (out []*c01Result) 
 		if left == 0 {
 			break
 		}
+	}
+	if sc.BusyRx {
+		Settle(time.Second)
+		dB.mu.Lock()
+		g := dB.gate
+		dB.gate = nil
+		dB.mu.Unlock()
+		close(g)
 	}
 	// ... and until the sender's membership broadcast queue has drained (every retransmission done)
 	for i := 0; i < 2400 && A.ML().VerifNumQueued() > 0; i++ {
@@ -377,6 +402,7 @@ func TestC11(t *testing.T) {
 			Label:    labels[rng.Intn(3)],
 			KeyLen:   []int{0, 0, 16, 32}[rng.Intn(4)],
 			LateKey:  i%3 == 0,
+			BusyRx:   i%4 == 2 || i%4 == 1,
 			PV:       []int{5, 5, 2, 1}[rng.Intn(4)],
 			Compress: rng.Intn(3) == 0,
 			Mode:     []string{"tiny", "exact", "equal", "members"}[i%4],
